@@ -208,7 +208,8 @@ def snap_grid(g):
         }
     metrics = []
     for k in sorted(g._metrics, key=lambda s: sorted(s)):
-        metrics.append([sorted(k), [[str(m.name), list(m.dims), core.array_digest(np.asarray(m.values))]
+        metrics.append([sorted(k), [[str(m.name), list(m.dims), core.array_digest(np.asarray(m.values)), _attrs(m.attrs),
+                                     sorted(str(c) for c in m.coords)]
                                     for m in g._metrics[k]]])
     fc = snap_obj(g._face_connections) if g._face_connections else None
     return {"t": "grid", "axes_order": list(g.axes), "axes": axes, "metrics": metrics,
@@ -537,7 +538,10 @@ def gen_simple_world(rng):
         vars_["dz_c"] = {"dims": ["zc"], "data": {"gen": "dyadic", "seed": 6}}
         vars_["dz_o"] = {"dims": ["zo"], "data": {"gen": "dyadic", "seed": 7}}
         metrics.append([{"$tuple": ["Z"]}, ["dz_c", "dz_o"]])
-    gspec = {"axes": axes, "extra": extra, "vars": vars_}
+    for vn, vv in vars_.items():
+        vv["attrs"] = {"units": "m", "long_name": vn}
+    gspec = {"axes": axes, "extra": extra, "vars": vars_,
+             "dim_attrs": {d: {"axis": a, "standard_name": d} for a, ax in axes.items() for d in ax["pos"].values()}}
     axn = list(axes)
 
     def cdims(xpos="xc", ypos="yc", zpos="zc", t=True):
@@ -613,6 +617,9 @@ def gen_simple_world(rng):
         {"func": "fwd_diff", "kw": {"signature": "(X:center)->(X:left)", "boundary_width": {"X": [1, 0]}}},
         {"func": "avg3", "kw": {"signature": "(X:center)->(X:center)", "boundary_width": {"X": [1, 1]},
                                 "boundary": "extend"}},
+        # options bound as mappings keyed by the signature's dummy axis name
+        {"func": "avg3", "kw": {"signature": "(X:center)->(X:center)", "boundary_width": {"X": [1, 1]},
+                                "boundary": {"X": rng.choice(nonper)}, "fill_value": {"X": 3.0}}},
     ]
     # boundary_width values must be tuples for xgcm
     for u in ufuncs:
@@ -768,7 +775,9 @@ def gen_op(rng, ws, info):
         return {"op": "pad", "pos": [{"$a": idx["c"]}, {"$g": g}], "kw": kw}
     if kind == "ufunc":
         u = rng.randrange(len(ws["ufuncs"]))
-        kw = {"axis": [{"$tuple": ["X"]}]}
+        # the dummy axis of the signature is "X"; the real axis may be any axis with center+left
+        uax = "X" if (ws["ufuncs"][u]["func"] == "fwd_diff" or rng.random() < 0.5) else rng.choice(axn)
+        kw = {"axis": [{"$tuple": [uax]}]}
         if rng.random() < 0.4:
             kw["boundary"] = _maybe_shared(rng, info, "boundary_total", "extend")
         return {"op": "ufunc_call", "grid": g, "u": u, "pos": [{"$a": idx["c"]}], "kw": kw}
